@@ -1040,60 +1040,91 @@ func (in *Exec) rangeIter(x value, t types.Type) iter {
 	panic(fmt.Sprintf("cannot range over %T", x))
 }
 
-// ---------- channels (single schedule) ----------
+// ---------- channels ----------
+//
+// Without other goroutines (no `go` statement executed yet on this path) an unbuffered channel behaves as a
+// one-way queue, as before; once the scheduler is active an unbuffered send waits for its receiver.
 
 func (in *Exec) chanSend(c *Chan, v value) {
 	if c == nil {
-		panic(pathAbort{abBlocked, "send on nil channel blocks forever" + in.where()})
+		in.block(func() bool { return false }, "send on nil channel")
 	}
 	if c.closed {
 		in.panicRuntime("send on closed channel")
 	}
-	if c.cap > 0 && len(c.buf) >= c.cap {
-		panic(pathAbort{abBlocked, "goroutine would block on channel send (single-schedule model)" + in.where()})
+	if c.cap > 0 {
+		in.block(func() bool { return c.closed || len(c.buf) < c.cap }, "channel send (buffer full)")
+		if c.closed {
+			in.panicRuntime("send on closed channel")
+		}
+		c.buf = append(c.buf, copyVal(v))
+		return
 	}
-	// unbuffered channels: treated as a rendezvous queue drained by a later receive (single schedule)
 	c.buf = append(c.buf, copyVal(v))
+	c.sent++
+	if in.sched != nil {
+		my := c.sent
+		in.block(func() bool { return c.recvd >= my }, "channel send (no receiver)")
+	}
 }
 
 func (in *Exec) chanRecv(c *Chan, elem types.Type) (value, bool) {
 	if c == nil {
-		panic(pathAbort{abBlocked, "receive from nil channel blocks forever" + in.where()})
+		in.block(func() bool { return false }, "receive from nil channel")
+	}
+	if len(c.buf) == 0 && !c.closed {
+		c.recvWaiting++
+		in.block(func() bool { return len(c.buf) > 0 || c.closed }, "channel receive")
+		c.recvWaiting--
 	}
 	if len(c.buf) > 0 {
 		v := c.buf[0]
 		c.buf = c.buf[1:]
+		c.recvd++
 		return v, true
 	}
-	if c.closed {
-		return in.zero(elem), false
-	}
-	panic(pathAbort{abBlocked, "goroutine would block on channel receive (single-schedule model)" + in.where()})
+	return in.zero(elem), false
 }
 
 func (in *Exec) selectOp(fr *frame, instr *ssa.Select) value {
 	tb := in.tb
 	var ready []int
-	for i, st := range instr.States {
-		c, _ := fr.get(st.Chan).(*Chan)
-		if c == nil {
-			continue
-		}
-		if st.Dir == types.RecvOnly {
-			if len(c.buf) > 0 || c.closed {
-				ready = append(ready, i)
+	scan := func() bool {
+		ready = ready[:0]
+		for i, st := range instr.States {
+			c, _ := fr.get(st.Chan).(*Chan)
+			if c == nil {
+				continue
 			}
-		} else {
-			if c.closed || c.cap == 0 || len(c.buf) < c.cap {
-				ready = append(ready, i)
+			if st.Dir == types.RecvOnly {
+				if len(c.buf) > 0 || c.closed {
+					ready = append(ready, i)
+				}
+			} else {
+				if c.closed || (c.cap == 0 && (in.sched == nil || c.recvWaiting > 0)) || (c.cap > 0 && len(c.buf) < c.cap) {
+					ready = append(ready, i)
+				}
 			}
 		}
+		return len(ready) > 0
+	}
+	if !scan() && instr.Blocking {
+		for _, st := range instr.States {
+			if c, _ := fr.get(st.Chan).(*Chan); c != nil && st.Dir == types.RecvOnly {
+				c.recvWaiting++
+			}
+		}
+		in.block(scan, "select")
+		for _, st := range instr.States {
+			if c, _ := fr.get(st.Chan).(*Chan); c != nil && st.Dir == types.RecvOnly {
+				c.recvWaiting--
+			}
+		}
+		scan()
 	}
 	chosen := -1
 	if len(ready) > 0 {
 		chosen = ready[in.choice(len(ready))]
-	} else if instr.Blocking {
-		panic(pathAbort{abBlocked, "select would block (single-schedule model)" + in.where()})
 	}
 	r := tuple{in.intConst(int64(chosen)), tb.False}
 	recvOk := false
